@@ -3188,3 +3188,69 @@ func SkipContextChecks() {
 	_ = chaincfg.MainNetParams
 }
 ''')])
+
+# ---- batch 16 ----
+HI = "chainimport/headers_import.go"
+mut("c14-batch-loop-exit-at-end-index", ["C14"], [(HI, '''		batchStartIdx += batchEnd - batchStart + 1
+		batchStart = batchEnd + 1
+	}
+''', '''		batchStartIdx += batchEnd - batchStart + 1
+		batchStart = batchEnd + 1
+		if batchStartIdx >= sourceEndIdx {
+			break
+		}
+	}
+''')], ["C14.V5"])
+mut("c14-batch-loop-exit-at-end-height", ["C14"], [(HI, '''		batchStartIdx += batchEnd - batchStart + 1
+		batchStart = batchEnd + 1
+	}
+''', '''		batchStartIdx += batchEnd - batchStart + 1
+		batchStart = batchEnd + 1
+		if batchEnd == endHeight-1 {
+			return nil
+		}
+	}
+''')], ["C14.V5"])
+mut("c14-quiet-batch-loop-exit-past-end", ["C14"], [(HI, '''		batchStartIdx += batchEnd - batchStart + 1
+		batchStart = batchEnd + 1
+	}
+''', '''		batchStartIdx += batchEnd - batchStart + 1
+		batchStart = batchEnd + 1
+		if batchStart > endHeight {
+			break
+		}
+	}
+''')], [])
+PB = "pushtx/broadcaster.go"
+mut("c15-skip-notification-at-known-height", ["C15"], [(PB, '''		case _, ok := <-sub.Notifications:
+			if !ok {
+				log.Warn("Unable to rebroadcast transactions: " +
+					"block subscription was canceled")
+				continue
+			}
+			triggerRebroadcast()
+''', '''		case ntfn, ok := <-sub.Notifications:
+			if !ok {
+				log.Warn("Unable to rebroadcast transactions: " +
+					"block subscription was canceled")
+				continue
+			}
+			if _, isConn := ntfn.(*blockntfns.Connected); isConn && ntfn.Height() <= zzBest {
+				continue
+			}
+			zzBest = ntfn.Height()
+			triggerRebroadcast()
+''')], ["C15.O1"], new_files=[("pushtx/zz_best.go", "package pushtx\n\nvar zzBest uint32\n")])
+mut("c15-tick-without-trigger", ["C15"], [(PB, '''		case <-reBroadcastTicker.C:
+			triggerRebroadcast()
+''', '''		case <-reBroadcastTicker.C:
+			if len(transactions) > 8 {
+				triggerRebroadcast()
+			}
+''')], ["C15.O1"])
+mut("c15-quiet-trigger-written-out-per-arm", ["C15"], [(PB, '''		case <-reBroadcastTicker.C:
+			triggerRebroadcast()
+''', '''		case <-reBroadcastTicker.C:
+			log.Tracef("Rebroadcast interval elapsed")
+			triggerRebroadcast()
+''')], [])
